@@ -251,3 +251,71 @@ theorem setExtension_ok_inv {h h' : Header} {id : UInt8} {data : Bytes} (hs : se
           exact Decidable.of_not_not h3
 
 end RtcModel.C15
+
+namespace RtcModel.C15
+open RtcModel.Generated
+
+/-! ### canonical RFC 8285 encodings of an element list -/
+
+/-- one-byte-header form: `(id << 4 | len-1) data…` per element -/
+def encodeOne (els : List (Nat × Bytes)) : Bytes := els.flatMap fun e => oneByteElem' e.1 e.2
+
+/-- two-byte-header form: `id len data…` per element -/
+def encodeTwo (els : List (Nat × Bytes)) : Bytes := els.flatMap fun e => u8 e.1 :: u8 e.2.length :: e.2
+
+def lookup (id : Nat) : List (Nat × Bytes) → Option Bytes
+  | [] => none
+  | (k, d) :: rest => if k = id then some d else lookup id rest
+
+theorem getOne_encodeOne (els : List (Nat × Bytes)) (hok : ∀ e ∈ els, ElemOk e.1 e.2) (id k : Nat) :
+    getOne id (encodeOne els ++ List.replicate k 0) = lookup id els := by
+  induction els with
+  | nil => simp [encodeOne, lookup, getOne_zeros]
+  | cons e els ih =>
+    obtain ⟨eid, d⟩ := e
+    have w : ElemOk eid d := hok (eid, d) (List.mem_cons_self ..)
+    have ih' := ih (fun x hx => hok x (List.mem_cons_of_mem _ hx))
+    simp only [encodeOne, List.flatMap_cons, oneByteElem', List.cons_append, List.append_assoc, lookup] at ih' ⊢
+    by_cases h : eid = id
+    · subst h; rw [if_pos rfl, getOne_elem_self w]
+    · rw [if_neg h, getOne_elem_other w (Ne.symm h)]
+      exact ih'
+
+theorem getTwo_nil (id : Nat) : getTwo id [] = none := by rw [getTwo]
+
+theorem getTwo_zeros (id k : Nat) : getTwo id (List.replicate k 0) = none := by
+  induction k with
+  | zero => simp [getTwo_nil]
+  | succ k ih => rw [List.replicate_succ, getTwo.eq_def]; simp [ih]
+
+/-- element ids 1..255, data up to 255 bytes -/
+structure Elem2Ok (id : Nat) (data : Bytes) : Prop where
+  idPos : 1 ≤ id
+  idLt : id ≤ 255
+  lenLe : data.length ≤ 255
+
+theorem getTwo_elem {eid : Nat} {d : Bytes} (w : Elem2Ok eid d) (id : Nat) (tail : Bytes) :
+    getTwo id (u8 eid :: u8 d.length :: (d ++ tail)) = if eid = id then some d else getTwo id tail := by
+  have := w.idPos; have := w.idLt; have := w.lenLe
+  have h1 : (u8 eid).toNat = eid := u8_toNat_lt (by omega)
+  have h2 : (u8 d.length).toNat = d.length := u8_toNat_lt (by omega)
+  have hne : u8 eid ≠ 0 := by
+    intro h; have := congrArg UInt8.toNat h; rw [h1] at this; simp at this; omega
+  rw [getTwo.eq_def]
+  simp only [hne, if_false, h1, h2]
+  by_cases h : eid = id
+  · rw [if_pos h, if_pos h, if_pos (by simp)]; simp
+  · rw [if_neg h, if_neg h]; simp
+
+theorem getTwo_encodeTwo (els : List (Nat × Bytes)) (hok : ∀ e ∈ els, Elem2Ok e.1 e.2) (id k : Nat) :
+    getTwo id (encodeTwo els ++ List.replicate k 0) = lookup id els := by
+  induction els with
+  | nil => simp [encodeTwo, lookup, getTwo_zeros]
+  | cons e els ih =>
+    obtain ⟨eid, d⟩ := e
+    have w : Elem2Ok eid d := hok (eid, d) (List.mem_cons_self ..)
+    have ih' := ih (fun x hx => hok x (List.mem_cons_of_mem _ hx))
+    simp only [encodeTwo, List.flatMap_cons, List.cons_append, List.append_assoc, lookup] at ih' ⊢
+    rw [getTwo_elem w, ih']
+
+end RtcModel.C15
